@@ -1,8 +1,265 @@
-//! engine `sim` (stub: to be filled in)
-use crate::util::Tr;
-use serde_json::{json, Value};
+//! C06: the `quizx sim` command line, run as a process (the binary built from /repo's working
+//! tree with the guard cfg).  The guarded hooks in cli/sim.rs append every scalar the
+//! decomposer returns and every Bernoulli draw to the file named by QUIZX_VERIF_TRACE; this
+//! engine turns them into events that TLC (mc/Trace_Sim) validates against the exact Born
+//! quantities of spec/Sim.tla.  Floating point only appears here: printed decimals and the
+//! sampler's p are compared (1e-9) with values derived from the exact scalars TLC validates.
 
-#[allow(unused_variables)]
+use crate::circ::*;
+use crate::util::{arg_num, arg_val, Tr};
+use num::complex::Complex;
+use rand::Rng;
+use serde_json::{json, Value};
+use std::process::Command;
+
+/// raw parts [[neg,"mantissa",exp,approx] x 4] -> (exact [a,b,c,d,e] JSON or "big", complex value, approx flag)
+fn raw_scalar(raw: &Value) -> (Value, Complex<f64>, bool) {
+    let mut parts: Vec<Option<(i128, i32)>> = vec![];
+    let mut approx = false;
+    let mut fl = [0f64; 4];
+    for (i, d) in raw.as_array().unwrap().iter().enumerate() {
+        let neg = d[0].as_bool().unwrap();
+        let m: u64 = d[1].as_str().unwrap().parse().unwrap();
+        let e = d[2].as_i64().unwrap() as i32;
+        approx |= d[3].as_bool().unwrap();
+        fl[i] = (m as f64) * 2f64.powi(e) * if neg { -1.0 } else { 1.0 };
+        if m == 0 {
+            parts.push(None);
+        } else {
+            let tz = m.trailing_zeros();
+            let mm = (m >> tz) as i128;
+            parts.push(Some((if neg { -mm } else { mm }, e + tz as i32)));
+        }
+    }
+    let r = std::f64::consts::FRAC_1_SQRT_2;
+    let c = Complex::new(fl[0] + (fl[1] - fl[3]) * r, fl[2] + (fl[1] + fl[3]) * r);
+    let emin = parts.iter().flatten().map(|p| p.1).min();
+    let js = match emin {
+        None => json!([0, 0, 0, 0, 0]),
+        Some(emin) => {
+            let mut out = [0i128; 4];
+            let mut ok = true;
+            for (i, p) in parts.iter().enumerate() {
+                if let Some((m, e)) = p {
+                    let sh = (e - emin) as u32;
+                    if sh > 40 {
+                        ok = false;
+                    } else {
+                        out[i] = m << sh;
+                    }
+                }
+            }
+            if ok && out.iter().all(|x| x.abs() < (1 << 30)) {
+                json!([out[0] as i64, out[1] as i64, out[2] as i64, out[3] as i64, emin])
+            } else {
+                json!("big")
+            }
+        }
+    };
+    // TLC cannot compare a sequence with a string: "big" scalars are sent as zeros plus the approx flag
+    let (js, approx) = if js == json!("big") { (json!([0, 0, 0, 0, 0]), true) } else { (js, approx) };
+    (js, c, approx)
+}
+
+struct Run {
+    exit: i32,
+    stdout: String,
+    panicked: bool,
+    hooks: Vec<Value>,
+}
+
+fn run(bin: &str, args: &[String], tracefile: &str) -> Run {
+    let _ = std::fs::remove_file(tracefile);
+    let o = Command::new(bin).args(args).env("QUIZX_VERIF_TRACE", tracefile).output().expect("run quizx");
+    let hooks = std::fs::read_to_string(tracefile)
+        .unwrap_or_default()
+        .lines()
+        .filter_map(|l| serde_json::from_str::<Value>(l).ok())
+        .collect();
+    let _ = std::fs::remove_file(tracefile);
+    Run {
+        exit: o.status.code().unwrap_or(-1),
+        stdout: String::from_utf8_lossy(&o.stdout).to_string(),
+        panicked: String::from_utf8_lossy(&o.stderr).contains("panicked at"),
+        hooks,
+    }
+}
+
+fn chars(s: &str) -> Vec<String> {
+    s.chars().map(|c| c.to_string()).collect()
+}
+
+fn all_strings(alpha: &[char], n: usize) -> Vec<String> {
+    let mut out = vec![String::new()];
+    for _ in 0..n {
+        out = out.iter().flat_map(|s| alpha.iter().map(move |c| format!("{s}{c}"))).collect();
+    }
+    out
+}
+
 pub fn record(args: &[String], seed: u64, tr: &mut Tr) -> Value {
-    json!({"stub": true})
+    let bin = arg_val(args, "--quizx-bin").expect("--quizx-bin");
+    let dir = arg_val(args, "--dir").expect("--dir");
+    std::fs::create_dir_all(&dir).unwrap();
+    let ncirc: usize = arg_num(args, "--circuits", 10);
+    let shots: usize = arg_num(args, "--shots", 6);
+    let maxq: usize = arg_num(args, "--maxq", 3);
+    let maxlen: usize = arg_num(args, "--maxlen", 8);
+    let per: usize = arg_num(args, "--queries", 6);
+    let mut r = crate::gens::rng(seed);
+    let al = Alphabet { pp: false, ..Alphabet::unitary() };
+    let tf = format!("{dir}/hook.ndjson");
+    let (mut nq, mut nbad) = (0usize, 0usize);
+    // fixed circuits that make marginals non-trivial, then random ones
+    let mut circuits: Vec<(usize, Vec<AG>)> = vec![
+        (2, vec![AG { t: "HAD", qs: vec![0], ph: 0 }, AG { t: "CNOT", qs: vec![0, 1], ph: 0 }]),
+        (2, vec![AG { t: "HAD", qs: vec![0], ph: 0 }, AG { t: "T", qs: vec![0], ph: 0 }, AG { t: "HAD", qs: vec![0], ph: 0 }, AG { t: "SWAP", qs: vec![0, 1], ph: 0 }]),
+        (3, vec![AG { t: "HAD", qs: vec![0], ph: 0 }, AG { t: "CNOT", qs: vec![0, 1], ph: 0 }, AG { t: "CNOT", qs: vec![1, 2], ph: 0 }, AG { t: "T", qs: vec![2], ph: 0 }, AG { t: "HAD", qs: vec![2], ph: 0 }]),
+    ];
+    while circuits.len() < ncirc {
+        let n = r.random_range(1..=maxq);
+        let len = r.random_range(1..=maxlen);
+        let mut al2 = al.clone();
+        if n < 3 {
+            al2.threeq = vec![];
+        }
+        if n < 2 {
+            al2.twoq = vec![];
+        }
+        circuits.push((n, random_circuit(&mut r, n, len, &al2)));
+    }
+    for (ci, (n, gs)) in circuits.iter().take(ncirc).enumerate() {
+        let cj = ag_json(*n, gs);
+        let c = circ_from_json(&cj);
+        let path = format!("{dir}/c_{ci}.qasm");
+        std::fs::write(&path, c.to_qasm()).unwrap();
+        tr.group();
+        tr.emit(json!({"k": "circ", "c": cj}));
+        let methods: Vec<Vec<String>> = vec![vec![], vec!["--cats".into()], vec!["--bss".into()]];
+        let pars: Vec<Vec<String>> = vec![vec![], vec!["-p".into(), "2".into()]];
+        let cfg = |r: &mut rand::rngs::StdRng| -> (Vec<String>, Vec<String>) { (methods[r.random_range(0..3)].clone(), pars[r.random_range(0..2)].clone()) };
+        // ---- amplitudes ----
+        let mut bitstrs = all_strings(&['0', '1'], *n);
+        bitstrs.push("0".into());
+        bitstrs.push("1".into());
+        for i in (1..bitstrs.len()).rev() {
+            bitstrs.swap(i, r.random_range(0..=i));
+        }
+        for bs in bitstrs.iter().take(per) {
+            for rep in 0..2 {
+                let (m, p) = if rep == 0 { (vec![], vec![]) } else { cfg(&mut r) };
+                let mut a: Vec<String> = vec!["sim".into(), path.clone(), "-a".into(), bs.clone()];
+                a.extend(m.clone());
+                a.extend(p.clone());
+                let out = run(&bin, &a, &tf);
+                let mut e = json!({"k": "amp", "chars": chars(bs), "method": m, "par": !p.is_empty(), "exit": out.exit, "panicked": out.panicked});
+                if out.exit == 0 && out.hooks.len() == 1 {
+                    let (js, cval, ap) = raw_scalar(&out.hooks[0]["raw"]);
+                    let printed: f64 = out.stdout.trim().parse().unwrap_or(f64::NAN);
+                    e["scalar"] = js;
+                    e["approx"] = json!(ap);
+                    e["printed_ok"] = json!((printed - cval.norm_sqr()).abs() <= 1e-9);
+                    e["res"] = json!("ok");
+                } else {
+                    e["res"] = json!(if out.exit == 0 { "nohook" } else { "error" });
+                }
+                tr.emit(e);
+                nq += 1;
+            }
+        }
+        // ---- expectation values ----
+        let mut ps = all_strings(&['I', 'X', 'Y', 'Z'], *n);
+        ps.extend(["X", "y", "Z", "i"].iter().map(|s| s.to_string()));
+        if *n == 2 {
+            ps.push("xZ".into());
+        }
+        for i in (1..ps.len()).rev() {
+            ps.swap(i, r.random_range(0..=i));
+        }
+        for pstr in ps.iter().take(per + 2) {
+            let (m, p) = cfg(&mut r);
+            let mut a: Vec<String> = vec!["sim".into(), path.clone(), "-e".into(), pstr.clone()];
+            a.extend(m.clone());
+            a.extend(p.clone());
+            let out = run(&bin, &a, &tf);
+            let mut e = json!({"k": "exp", "chars": chars(pstr), "method": m, "par": !p.is_empty(), "exit": out.exit, "panicked": out.panicked});
+            if out.exit == 0 && out.hooks.len() == 1 {
+                let (js, cval, ap) = raw_scalar(&out.hooks[0]["raw"]);
+                let printed: f64 = out.stdout.trim().parse().unwrap_or(f64::NAN);
+                e["scalar"] = js;
+                e["approx"] = json!(ap);
+                e["printed_ok"] = json!((printed - cval.re).abs() <= 1e-9);
+                e["res"] = json!("ok");
+            } else {
+                e["res"] = json!(if out.exit == 0 { "nohook" } else { "error" });
+            }
+            tr.emit(e);
+            nq += 1;
+        }
+        // ---- samples ----
+        for rep in 0..2 {
+            let (m, p) = if rep == 0 { (vec![], vec![]) } else { cfg(&mut r) };
+            let mut a: Vec<String> = vec!["sim".into(), path.clone(), "-s".into(), shots.to_string()];
+            a.extend(m.clone());
+            a.extend(p.clone());
+            let out = run(&bin, &a, &tf);
+            let lines: Vec<&str> = out.stdout.lines().filter(|l| !l.trim().is_empty()).collect();
+            let mut e = json!({"k": "sample", "method": m, "par": !p.is_empty(), "exit": out.exit, "panicked": out.panicked, "shots": shots});
+            if out.exit == 0 && out.hooks.len() == 2 * shots * n && lines.len() == shots {
+                let mut sh = vec![];
+                for s in 0..shots {
+                    let mut draws = vec![];
+                    let mut prefix_prob = 1.0f64;
+                    for k in 0..*n {
+                        let hs = &out.hooks[2 * (s * n + k)];
+                        let hd = &out.hooks[2 * (s * n + k) + 1];
+                        let (js, cval, ap) = raw_scalar(&hs["raw"]);
+                        let bits: Vec<u8> = hd["bits"].as_str().unwrap().bytes().map(|b| b - b'0').collect();
+                        let p: f64 = hd["p"].as_str().unwrap().parse().unwrap_or(f64::NAN);
+                        let joint = cval.re;
+                        let cond = joint / prefix_prob;
+                        let bit = *bits.last().unwrap();
+                        draws.push(json!({"pre": bits[..bits.len() - 1], "scalar": js, "approx": ap, "bit": bit,
+                                          "p_in_range": (0.0..=1.0).contains(&p), "p_is_conditional": (p - cond).abs() <= 1e-9}));
+                        prefix_prob = if bit == 1 { joint } else { prefix_prob - joint };
+                    }
+                    let printed: Vec<u8> = lines[s].trim().bytes().map(|b| b.wrapping_sub(b'0')).collect();
+                    sh.push(json!({"draws": draws, "printed": printed}));
+                }
+                e["res"] = json!("ok");
+                e["runs"] = json!(sh);
+            } else {
+                e["res"] = json!(if out.exit == 0 { "nohook" } else { "error" });
+            }
+            tr.emit(e);
+            nq += 1;
+        }
+        // ---- malformed queries: must be rejected with an error, not a panic ----
+        let long = "01".repeat(*n);
+        let bads: Vec<Vec<String>> = vec![
+            vec!["-a".into(), long.clone() + "0"],
+            vec!["-a".into(), "0".repeat(*n + 2)],
+            vec!["-a".into(), "012"[..(*n).min(3)].to_string() + "2"],
+            vec!["-a".into(), "".into()],
+            vec!["-e".into(), "X".repeat(*n + 1)],
+            vec!["-e".into(), "Q".into()],
+            vec!["-e".into(), "".into()],
+            vec!["-a".into(), "0".into(), "-e".into(), "Z".into()],
+            vec!["-a".into(), "0".into(), "-s".into(), "2".into()],
+            vec!["--cats".into(), "--bss".into()],
+        ];
+        for b in bads.iter() {
+            if *n == 1 && (b[1].len() == 1) && b.len() == 2 && b[1] != "Q" {
+                continue;
+            }
+            let mut a: Vec<String> = vec!["sim".into(), path.clone()];
+            a.extend(b.clone());
+            let out = run(&bin, &a, &tf);
+            let kind = if b[0] == "-a" && b.len() == 2 { "bits" } else if b[0] == "-e" && b.len() == 2 { "paulis" } else { "flags" };
+            tr.emit(json!({"k": "query", "kind": kind, "chars": if b.len() == 2 { chars(&b[1]) } else { vec![] }, "argv": b, "exit": out.exit, "panicked": out.panicked}));
+            nbad += 1;
+        }
+        let _ = std::fs::remove_file(&path);
+    }
+    json!({"circuits": ncirc.min(circuits.len()), "queries": nq, "malformed": nbad})
 }
